@@ -1,6 +1,6 @@
 """C02 -- success means every non-forever job ran exactly once; no job runs twice."""
 
-from . import runrules
+from . import runrules, common
 
 
 def check(ctx, rep):
@@ -12,8 +12,10 @@ def check(ctx, rep):
         "finished one, so a task is reported done once. R02.3 once-guard: on every path to a successor start "
         "the path condition contains an already-started test on that job which the start itself makes true "
         "synchronously (it reads the task registry), or no may-suspend await lies between the main wait and "
-        "the start.")
+        "the start. R02.4 the wrapper awaits the job body exactly once per task (no retry loop) and only while "
+        "holding its slot.")
     rep.trusted = ["T1 asyncio.wait partitions its argument", "T2", "T7 gather() of finished futures may suspend (CPython <= 3.11)"]
     runrules.success_accounting(ctx, rep, "R02.1")
     runrules.batches_disjoint(ctx, rep, "R02.2")
     runrules.once_guard(ctx, rep, "R02.3")
+    common.wrap_typestate(ctx, rep, "R02.4")
